@@ -10,7 +10,7 @@ ID = 'C06'
 LEVEL = 'exploration'
 RULE = ('Hypothesis-generated configurations (min_size 1-3, max_size up to 8, min_load in {0.2,0.5,1.0}, max_load >= 2.5 x '
         'min_load, 1-9 members, jitter disabled or every 2-6 s) and histories (<= 40 ops) of dispatch / complete / down / up / '
-        'join / leave / advance(up to 40 s) / steady(c in 1-12 closed-loop callers, 1-5 requests per second each, 35-60 '
+        'join / leave / advance(up to 40 s) / wall clock stepping back 1-30 s / steady(c in 1-12 closed-loop callers, 1-5 requests per second each, 35-60 '
         'virtual seconds) against the real ApertureBalancerSink on the virtual clock. Every _AdjustAperture / contraction '
         'is observed: partition + gauges after every step, contraction floor, load-driven growth cap, direction of every '
         'size change given the published load average, the published smoothed load within the range of the totals of the last 30 s (+ e^-6 of the all-time range) at every event, tracking of the smoothed load after 30 s of steady traffic, and '
@@ -54,6 +54,7 @@ def strategy(tier):
       (1, st.tuples(st.just('join'), st.integers(0, 8)).map(list)),
       (1, st.tuples(st.just('leave'), st.integers(0, 8)).map(list)),
       (2, st.tuples(st.just('advance'), st.sampled_from([10, 500, 2000, 5000, 20000, 40000])).map(list)),
+      (1, st.tuples(st.just('clock_back'), st.sampled_from([1, 10, 30])).map(list)),
       (3, st.tuples(st.just('steady'), st.integers(1, 12), st.sampled_from([1, 2, 5]), st.sampled_from([35, 40, 60])).map(list)),
   ]
   return st.fixed_dictionaries({'config': cfg, 'ops': sized_list(weighted(*pairs), 0, 40 if tier == 'quick' else 70)})
